@@ -710,6 +710,11 @@ class Run:
             with open(os.path.join(rb, name), 'wb') as fh:
                 fh.write(content)
             return self.path(name, rb)
+        import pathlib
+        variants.append(('pathlib-format', pathlib.Path(put('copyp.dat',
+                                                            data)), fmt))
+        variants.append(('pathlib-sniffed', pathlib.Path(put('copyq.dat',
+                                                             data)), None))
         variants.append(('renamed', put('copy.dat', data), None))
         variants.append(('renamed-noext', put('copy', data), None))
         for e in READ_GZ_EXT[fmt]:
